@@ -11,6 +11,7 @@ import (
 	"strings"
 
 	"github.com/issue9/mux/v9"
+	"github.com/issue9/mux/v9/types"
 
 	"verifharness/explore"
 	"verifharness/hv"
@@ -265,6 +266,25 @@ func c18Composition(rc *explore.RunCtx) {
 	for _, bad := range []any{"not a handler", 42, func() {}} {
 		if _, paniced := Guard(func() { NewRouter(RouterCfg{}, mux.WithTrace(bad)) }); !paniced {
 			rc.Report(explore.Violation{Property: "C18", Clause: "C18.option-composition", Class: "wrong-type-trace-option-ignored", Config: fmt.Sprintf("NewRouter(WithTrace(%T))", bad), Probe: "NewRouter", Observed: "router built; the option was dropped", Expected: "panic: the value is not of the router's handler type"})
+		}
+	}
+	// a router whose handler type is a plain value type: the zero value is a handler like any other, also for TRACE
+	{
+		var got []int
+		vr := mux.NewRouter[int]("v", func(_ http.ResponseWriter, _ *http.Request, _ types.Route, h int) { got = append(got, h) }, 2,
+			func(types.Node) int { return 3 }, func(types.Node) int { return 4 }, mux.WithTrace(0))
+		vr.Handle("/a", 1, nil, "GET")
+		for _, p := range []string{"/a", "/nowhere"} {
+			got = got[:0]
+			_, paniced := Guard(func() { vr.ServeHTTP(hv.NewWriter(), hv.NewRequest(hv.Req{Method: "TRACE", Path: p}, &hv.Obs{})) })
+			rc.Add("states", 1)
+			if paniced || len(got) != 1 || got[0] != 0 {
+				rc.Report(explore.Violation{Property: "C18", Clause: "C18.option-composition", Class: "zero-value-trace-handler-ignored", Config: "NewRouter[int](..., WithTrace(0)); handlers: 0 = TRACE, 1 = GET /a, 2 = 404, 3 = 405, 4 = OPTIONS", Probe: "TRACE " + p,
+					Observed: fmt.Sprintf("handlers called: %v (panic=%v)", got, paniced), Expected: "handlers called: [0]"})
+			}
+		}
+		if _, paniced := Guard(func() { vr.Handle("/t", 5, nil, "TRACE") }); !paniced {
+			rc.Report(explore.Violation{Property: "C18", Clause: "C18.option-composition", Class: "trace-registrable-mismatch", Config: "NewRouter[int](..., WithTrace(0))", Probe: "Handle(/t, TRACE)", Observed: "accepted", Expected: "rejected: a TRACE handler is configured"})
 		}
 	}
 	for _, s := range systems {
